@@ -93,9 +93,9 @@ Pols(tr) == IF IsArrays(tr) THEN {[how |-> h, t |-> <<>>] : h \in Hows} \cup {[h
 Methods == {"none", "ffill", "bfill"}
 \* explicit column sets: some frames have some of them; a single column; one nobody has
 ExCols == IF Light THEN {<<"a", "c">>} ELSE {<<"a", "c">>, <<"b">>, <<"c", "d", "e">>}
-\* (Light: the frames over all indices and NaN masks meet four of the column policies, the column-set shapes meet them all)
+\* (the frames over all indices and NaN masks meet four of the column policies, the column-set shapes meet them all)
 ColPols(tr) == IF MultiLeaves(tr) = <<>> THEN {ColPol("ij")}
-               ELSE IF tr \in Frames THEN (IF Light THEN {ColPol("ij"), ColPol("oj"), ColPol("rj"), NoCols} ELSE {ColPol(h) : h \in Hows} \cup {NoCols})
+               ELSE IF tr \in Frames THEN {ColPol("ij"), ColPol("oj"), ColPol("rj"), NoCols}
                ELSE {ColPol(h) : h \in Hows} \cup {NoCols} \cup {ColEx(cs) : cs \in ExCols}
 
 Init == tree \in Trees /\ pol \in Pols(tree) /\ m \in Methods /\ colpol \in ColPols(tree) /\ done = FALSE /\ res = <<>>
